@@ -13,6 +13,9 @@ pub const RULE: &str = "cases: every rule (every rule kind) of every corpus gram
 pub fn check_input(ctx: &mut Ctx, gi: &GInfo, rule: usize, input: &str) -> CaseResult {
     ctx.ev.eval();
     let (name, kind) = gi.rules[rule].clone();
+    if !well_founded(ctx, gi, rule, input, 0, input.len()) {
+        return CaseResult::Ok;
+    }
     let q = |entry: Entry| gi.g.typed(Req { rule, entry, form: Form::Str, deep: true }, input);
     let part = q(Entry::ParsePartial);
     if part.panicked.is_some() {
